@@ -46,9 +46,16 @@ func genIsoSession(t *rapid.T, cfg gwsim.Config, idx int) isoSession {
 	// it has no ID yet.
 	hasID := map[string]bool{}
 	if !s.Hostile || rapid.Bool().Draw(t, "hostile_connects") {
-		add(gwgen.SN(gwgen.Connect(s.ClientID, 60, false, true)))
+		// The connect exchange is made of separate script steps (CONNECT, AUTH, WILLTOPIC, WILLMSG), so
+		// that the exchanges of different sessions overlap in the drawn interleaving; every session
+		// has its own credentials and its own will.
+		will := rapid.Bool().Draw(t, "will")
+		add(gwgen.SN(gwgen.Connect(s.ClientID, 60, will, true)))
 		if cfg.Auth {
 			add(gwgen.SN(gwgen.AuthPlain(fmt.Sprintf("user%d", idx), []byte(fmt.Sprintf("pw%d", idx)))))
+		}
+		if will {
+			add(gwgen.SN(gwgen.WillTopic(fmt.Sprintf("will/%d", idx), 1, false)), gwgen.SN(gwgen.WillMsg([]byte(fmt.Sprintf("gone-%d", idx)))))
 		}
 	}
 	n := rapid.IntRange(1, 8).Draw(t, "n")
@@ -121,6 +128,10 @@ func genIsoSession(t *rapid.T, cfg gwsim.Config, idx int) isoSession {
 func genIso(t *rapid.T) isoCase {
 	c := isoCase{Cfg: gwgen.Cfg(t)}
 	c.Cfg.RetryDelayMs = 10000
+	if c.Cfg.GwUser != nil && rapid.Bool().Draw(t, "long_gwpass") {
+		// gateway credentials longer than any client's (they are one configuration object shared by all sessions)
+		c.Cfg.GwPass = []byte("default-gateway-password")
+	}
 	// predefined names are unique per (client, ID), so that name->ID lookups are deterministic
 	c.Cfg.Predef = map[string]map[uint16]string{}
 	for _, cl := range []string{"*", "cl", "c2"} {
